@@ -112,6 +112,16 @@ CHECKS["C08"] = dict(
          "bounded driver (trees of <= 5 branches in every nesting vs a reference ripple-down-rules interpreter).",
     note="RWXNode abstracted as a record with a parent field; ancestor chains longer than 4 not explored; update_conclusion de-duplication bounded-only.",
 )
+CHECKS["C11"] = dict(
+    category="other",
+    technique="contract-based deductive verification: builder-dispatch obligations on match.py (real ast, all flag combinations) over the C01 operator contracts + bounded pattern-vs-predicate driver",
+    text="AttributeAssignment.infer_condition_between_attribute_and_assigned_value is executed for every combination of collection/scalar attribute, "
+         "literal / variable / nested match value and the universal / existential flags and must build exactly the node the property's reading "
+         "prescribes; resolve() flattens and type-filters exactly when required; the constructors plumb the flags; Match.expression selects "
+         "the element or the selected parts with all conditions. The denotation of the built nodes is C01's; whole patterns are compared with "
+         "a direct Python predicate by the bounded driver. One known finding (match_any inherits the Exists de-duplication).",
+    note="Assumes the C01 contracts for Comparator/Flatten/Exists/HasType nodes and the field classification of C17.",
+)
 NOT_APPLICABLE = {
     "C05": "decided by SQLAlchemy/SQLite semantics acting on generated code; no krrood function body carries it, so no contract within reach can express it (DESIGN.md §4)",
 }
